@@ -43,9 +43,9 @@ fn rename_packages(text: &str, naming: usize) -> String {
 }
 
 /// syntactic positions in which a package-qualified name can be written
-const REFERENCE_KINDS: [&str; 18] = [
+const REFERENCE_KINDS: [&str; 19] = [
     "fn", "type", "variant", "ret-type", "generic-arg", "tuple-elem", "fn-type", "let-annot", "closure-annot", "closure-annot-nested", "struct-field", "enum-payload", "struct-lit",
-    "struct-pat", "impl-header", "trait-bound", "trait-call", "dyn-type",
+    "struct-pat", "impl-header", "trait-bound", "trait-call", "dyn-type", "associated-fn",
 ];
 
 /// implementing types for the impl-placement cases: a struct of package B, an instance of a generic
@@ -121,7 +121,7 @@ fn pkg_source(i: usize, edges: &[(usize, usize)], extra_ref: Option<(usize, usiz
         }
     }
     s.push('\n');
-    s.push_str(&format!("struct T{} {{ v: int32 }}\nenum E{} {{ V{}, W{}(int32) }}\ntrait Tr{} {{ fn t(Self) -> int32; }}\nimpl Tr{} for int32 {{ fn t(self: int32) -> int32 {{ self }} }}\n", PK[i], PK[i], PK[i], PK[i], PK[i], PK[i]));
+    s.push_str(&format!("struct T{} {{ v: int32 }}\nenum E{} {{ V{}, W{}(int32) }}\ntrait Tr{} {{ fn t(Self) -> int32; }}\nimpl Tr{} for int32 {{ fn t(self: int32) -> int32 {{ self }} }}\nimpl T{} {{ fn make() -> int32 {{ 0 }} }}\n", PK[i], PK[i], PK[i], PK[i], PK[i], PK[i], PK[i]));
     let mut sum = format!("{}", i + 1);
     for (a, b) in edges {
         if *a == i {
@@ -151,6 +151,7 @@ fn pkg_source(i: usize, edges: &[(usize, usize)], extra_ref: Option<(usize, usiz
                 "trait-bound" => s.push_str(&format!("fn probe[U: {p}::Tr{p}](u: U) -> int32 {{ 0 }}\n", p = PK[to])),
                 "trait-call" => s.push_str(&format!("fn probe() -> int32 {{ {p}::Tr{p}::t(1) }}\n", p = PK[to])),
                 "dyn-type" => s.push_str(&format!("fn probe(d: dyn {p}::Tr{p}) -> int32 {{ 0 }}\n", p = PK[to])),
+                "associated-fn" => s.push_str(&format!("fn probe() -> int32 {{ {p}::T{p}::make() }}\n", p = PK[to])),
                 _ => {
                     s.push_str(&format!("fn probe() -> int32 {{ match {}::E{}::V{} {{ {}::E{}::V{} => 0, {}::E{}::W{}(k) => k }} }}\n", PK[to], PK[to], PK[to], PK[to], PK[to], PK[to], PK[to], PK[to], PK[to]));
                 }
@@ -236,7 +237,7 @@ impl Family for Isolation {
         &["C16", "C04", "C13"]
     }
     fn rule(&self) -> &'static str {
-        "all import graphs on {Main,A,B,C} with <= 4 edges (quick) / all 4096 (thorough) incl. cycles and self-reachable shapes: accepted iff the subgraph reachable from Main is acyclic, and then the program prints the value the graph denotes; 9 existence/naming faults (missing directory, misnamed package declaration, empty directory) on a diamond; a directory (a library's, the root) of 2-6 files in which one file at every position / two neighbouring files / none declare another package: accepted iff none; 216 qualified references from each package of a chain to each package in 18 syntactic positions (fn call, parameter / result / generic-argument / tuple / function type, let and closure-parameter annotation, struct field, enum payload, struct literal and pattern, impl header, trait bound, trait path call, dyn type, variant): accepted iff the target is the package itself or a direct import; 16 impl placements (subsets of {A, B, C, Main}) x 9 implementing types {B::S, B::G[int32], int32, string, bool, Vec[int32], Ref[int32], (int32, bool), [int32; 2]} for a trait in A: accepted iff every impl is in the trait's package or (for B's own types) the type's package and at most one exists (builtin types have no home package). the reference and impl-placement configurations also with the packages named so that each name is a proper prefix of another's ({Geo, Geometry, G} and {Geometry, Geo, Geomet} for {A, B, C}); verdict = pure reference function of the configuration. non-trivial = configurations that must be rejected; distinct = distinct configuration"
+        "all import graphs on {Main,A,B,C} with <= 4 edges (quick) / all 4096 (thorough) incl. cycles and self-reachable shapes: accepted iff the subgraph reachable from Main is acyclic, and then the program prints the value the graph denotes; 9 existence/naming faults (missing directory, misnamed package declaration, empty directory) on a diamond; a directory (a library's, the root) of 2-6 files in which one file at every position / two neighbouring files / none declare another package: accepted iff none; 228 qualified references from each package of a chain to each package in 19 syntactic positions, each also package by package through build + link, (fn call, parameter / result / generic-argument / tuple / function type, let and closure-parameter annotation, struct field, enum payload, struct literal and pattern, impl header, trait bound, trait path call, dyn type, variant, associated function): accepted iff the target is the package itself or a direct import; 16 impl placements (subsets of {A, B, C, Main}) x 9 implementing types {B::S, B::G[int32], int32, string, bool, Vec[int32], Ref[int32], (int32, bool), [int32; 2]} for a trait in A: accepted iff every impl is in the trait's package or (for B's own types) the type's package and at most one exists (builtin types have no home package). the reference and impl-placement configurations also with the packages named so that each name is a proper prefix of another's ({Geo, Geometry, G} and {Geometry, Geo, Geomet} for {A, B, C}); verdict = pure reference function of the configuration. non-trivial = configurations that must be rejected; distinct = distinct configuration"
     }
     fn cases(&self, tier: Tier) -> Box<dyn Iterator<Item = Value> + '_> {
         Box::new(cases_list(tier).into_iter())
@@ -405,6 +406,7 @@ impl Family for Isolation {
             rep.nontrivial_key = Some(format!("{}|{}", site, case));
         }
         let replay = json!({"kind": "project", "project": site, "files": proj.files, "expect_accept": expect_accept});
+        let replay_sep = replay.clone();
         rep.sample = Some(json!({"configuration": site, "files": proj.files, "expect_accept": expect_accept}));
         let (w, _) = whole(&root);
         match (&w, expect_accept) {
@@ -461,6 +463,32 @@ impl Family for Isolation {
                 let m = normalise_msg(m);
                 for p in ["C16", "C04"] {
                     rep.findings.push(Finding { property: p, class: "compile.panic".into(), site: format!("{};msg={}", site, m), detail: m.clone(), replay: replay.clone() });
+                }
+            }
+        }
+        // the references also package by package (check / build with every interface built so far on the interface
+        // path, then link): a package that is not imported is as unknown there as under whole-program compilation
+        if case["kind"] == "reference" {
+            let pkgs = packages(&proj);
+            if let Some(topo) = topo_orders(&pkgs).into_iter().next() {
+                let out = ctx.scratch.fresh_dir("iso-artifacts");
+                match (separate(&root, &out, &pkgs, &topo, false).built, expect_accept) {
+                    (Built::Ok { .. }, true) => rep.tag("build+link:accepted-as-expected"),
+                    (Built::Err { stage, .. }, false) => rep.tag(format!("build+link:rejected-as-expected:{}", stage)),
+                    (Built::Ok { .. }, false) => {
+                        rep.findings.push(Finding { property: "C16", class: "iso.accepted-by-build".into(), site: site.clone(), detail: "a reference to a package that is not imported was accepted by build + link".into(), replay: replay_sep.clone() });
+                    }
+                    (Built::Err { stage, messages }, true) => {
+                        if !either_ok {
+                            rep.findings.push(Finding { property: "C16", class: "iso.rejected-by-build".into(), site: site.clone(), detail: format!("{}: {:?}", stage, messages), replay: replay_sep.clone() });
+                        }
+                    }
+                    (Built::Panic(m), _) => {
+                        let m = normalise_msg(&m);
+                        for p in ["C16", "C04"] {
+                            rep.findings.push(Finding { property: p, class: "compile.panic".into(), site: format!("{};pipeline=build+link;msg={}", site, m), detail: m.clone(), replay: replay_sep.clone() });
+                        }
+                    }
                 }
             }
         }
